@@ -418,6 +418,11 @@ class ObjRefineForCallers(Contract):
 
     def result(self, S, env):
         s = env["self"].fields
+        if getattr(S.ex.contract, "callee_may_refuse", False) and S.ex.decide(S.bool("split_refused")):
+            # in floating point an interval of two adjacent numbers cannot be split: the real function then refuses (assert start < mid < end) and, being a
+            # pure constructor of children, leaves the receiver untouched (contract `Refine`: receiver-unchanged)
+            from pyvc.engine import RaiseEx
+            raise RaiseEx("AssertionError", S.ex.fn)
         kids = []
         for k in range(2):
             kids.append(Obj("RefinementObjectSingleDimension", dict(start=S.real("child%d.start" % k), end=S.real("child%d.end" % k),
@@ -487,7 +492,36 @@ def Opaque_list(S):
     return Opaque(S.const("new_objects", P.U))
 
 
-CONTRACTS += [ObjRefineForCallers(), ContainerRefine()]
+class ContainerRefineRefusal(ContainerRefine):
+    """the same function when the interval's own refine() refuses (an interval that cannot be split in floating point raises AssertionError): the container
+    must be exactly as before -- no interval scheduled for removal, no object added or changed -- so that a caller who catches the refusal and goes on
+    refining still has a tiling of [a,b]"""
+    callee_may_refuse = True
+    total = False
+
+    def __init__(self):
+        self.label = "RefinementContainer.refine[the interval refuses to be split]"
+
+    def post_raise(self, S, old, env, exc_name):
+        if exc_name != "AssertionError":
+            return None
+        fo, f = old["self"].fields, env["self"].fields
+        oo, o = fo["refinementObjects"], f["refinementObjects"]
+        po, pn = fo["popArray"].to_symbolic(), f["popArray"].to_symbolic()
+        same = [V(o.length) == V(oo.length)]
+        for fld in ("benefit", "start", "end", "coarsening_level", "error", "evaluations"):
+            same.append(o.fields[fld] == oo.fields[fld])
+        same += [a_ == b_ for a_, b_ in zip(o.fields["levels"], oo.fields["levels"])]
+        return [Cl("nothing-is-scheduled-for-removal", z3.And(V(pn.len()) == V(po.len()), pn.arr == po.arr), prop=True),
+                Cl("objects-untouched", z3.And(*same), prop=True),
+                Cl("cursor-untouched", f["searchPosition"] == fo["searchPosition"])]
+
+    @staticmethod
+    def model_to_input(model):
+        return {"kind": "C06.refine_refused"}
+
+
+CONTRACTS += [ObjRefineForCallers(), ContainerRefine(), ContainerRefineRefusal()]
 
 
 # --------------------------------------------------------------------------- the refinement step: SpatiallyAdaptivBase.refine (dimension-wise strategy)
